@@ -51,7 +51,7 @@ func classify(r *sctree.Runner, t *sctree.Tree) (bool, []string) {
 }
 
 func TestNeverWrong(t *testing.T) {
-	ev.Rapid(t, 3000, 50000)
+	ev.Rapid(t, 8000, 80000)
 	rapid.Check(t, func(rt *rapid.T) {
 		tree := sctree.Gen(rt, sctree.Params{MaxBlocks: gen.Pick(rt, []int{4, 8, 16, 40}, "maxblocks"), MaxKeys: 4, Forks: true, Gaps: true, Abandoned: true, Twice: true})
 		r := sctree.NewRunner(rt, tree, hooks)
